@@ -591,7 +591,8 @@ class BLOBType(DataType):
         super().checkProperties()
 
     def export_datatype(self):
-        return self.get_info(type='blob')
+        # maxbytes is mandatory: it has to be there also when equal to the default of its datatype (0)
+        return self.get_info(type='blob', maxbytes=self.maxbytes)
 
     def __repr__(self):
         return f'BLOBType({self.minbytes}, {self.maxbytes})'
@@ -1374,7 +1375,8 @@ DATATYPES = {
     'blob': lambda maxbytes, minbytes=0, **kwds:
         BLOBType(minbytes=minbytes, maxbytes=maxbytes),
     'string': lambda minchars=0, maxchars=None, isUTF8=False, **kwds:
-        StringType(minchars=minchars, maxchars=maxchars, isUTF8=isUTF8),
+        # maxchars not described means unlimited (not: as long as minchars)
+        StringType(minchars=minchars, maxchars=UNLIMITED if maxchars is None else maxchars, isUTF8=isUTF8),
     'array': lambda maxlen, members, minlen=0, pname='', **kwds:
         ArrayOf(get_datatype(members, pname), minlen=minlen, maxlen=maxlen),
     'tuple': lambda members, pname='', **kwds:
